@@ -53,17 +53,27 @@ impl Gate {
         gate
     }
 
-    pub fn step(&self) {
+    /// let the collector run one task; -> number of tasks that were announced (hook gc.enqueue) but never
+    /// reached the collector (0 unless the queue loses tasks)
+    pub fn step(&self) -> u64 {
         let mut st = self.m.lock().unwrap();
         if st.enq == st.done {
-            return;
+            return 0;
         }
         let target = st.done + 1;
         st.permits += 1;
         self.cv.notify_all();
         while st.done < target {
-            st = self.cv.wait(st).unwrap();
+            let (g, to) = self.cv.wait_timeout(st, std::time::Duration::from_secs(3)).unwrap();
+            st = g;
+            if to.timed_out() && st.done < target {
+                let lost = st.enq - st.done;
+                st.permits = 0;
+                st.enq = st.done;
+                return lost;
+            }
         }
+        0
     }
 
     /// let the collector run every task that was enqueued; -> number of enqueued tasks that never
@@ -321,8 +331,12 @@ pub fn main(args: &[String]) -> i32 {
             }
             "gcstep" => {
                 writeln!(trace, "PRE gcstep").unwrap();
-                gate.step();
-                ("gcstep".into(), "= done".into())
+                let lost = gate.step();
+                if lost == 0 {
+                    ("gcstep".into(), "= done".into())
+                } else {
+                    ("gcstep".into(), format!("= {} collector tasks were enqueued but never reached the collector", lost))
+                }
             }
             "rawdump" => {
                 // the raw keys of the three partitions (hook Store::verif_raw_keys): compared with the model's partitions
